@@ -44,13 +44,40 @@ def ND(a, dtype=None):
     return {"nd": a.tolist(), "dtype": str(dtype or a.dtype)}
 
 
+# Numeric hyper-parameters are handed over as NumPy scalars / 0-d arrays in a deterministic share
+# of the constructions (same value, other type: np.int64(5), np.float64(0.3), np.float32(0.5) when
+# exactly representable, np.array(5)): legitimate in every documented domain.  The choice is a pure
+# function of (class, name, value), so an object and its twins get the same types.
+NUMPY_SCALARS = {"rate": 0.15}
+
+
+def _as_numpy_scalar(cls, key, v):
+    if isinstance(v, bool) or not isinstance(v, (int, float)) or NUMPY_SCALARS["rate"] <= 0:
+        return v
+    # only the library's own classes (the harness's user-defined programs keep plain numbers), and
+    # not the fixed cost parameter `param`, whose types C01 varies on its own
+    if key == "param" or not getattr(_REG.get(cls), "__module__", "").startswith("skchange"):
+        return v
+    import zlib
+
+    h = zlib.crc32(f"{cls}|{key}|{v!r}".encode()) / 2 ** 32
+    if h >= NUMPY_SCALARS["rate"]:
+        return v
+    k = int(h / NUMPY_SCALARS["rate"] * 4)
+    if isinstance(v, int):
+        return [np.int64(v), np.int32(v), np.array(v), np.int64(v)][k]
+    if k == 1 and float(np.float32(v)) == v:
+        return np.float32(v)
+    return np.array(v) if k == 2 else np.float64(v)
+
+
 def build(spec):
     global _REG
     if _REG is None:
         _REG = registry()
     if isinstance(spec, dict):
         if "cls" in spec:
-            kw = {k: build(v) for k, v in spec.get("kw", {}).items()}
+            kw = {k: _as_numpy_scalar(spec["cls"], k, build(v)) for k, v in spec.get("kw", {}).items()}
             return _REG[spec["cls"]](**kw)
         if "nd" in spec:
             a = np.array(spec["nd"], dtype=spec.get("dtype", "float64"))
